@@ -12,6 +12,7 @@ package props
 import (
 	"encoding/base64"
 	"os"
+	"reflect"
 
 	"encoding/json"
 	"fmt"
@@ -24,6 +25,7 @@ import (
 
 	sdkmath "cosmossdk.io/math"
 	sdk "github.com/cosmos/cosmos-sdk/types"
+	"github.com/cosmos/cosmos-sdk/types/bech32"
 	authtypes "github.com/cosmos/cosmos-sdk/x/auth/types"
 	distrtypes "github.com/cosmos/cosmos-sdk/x/distribution/types"
 	stakingtypes "github.com/cosmos/cosmos-sdk/x/staking/types"
@@ -51,9 +53,13 @@ type C16Case struct {
 	Amt     string   `json:"amt"`      // milli-ISLM (abs) or offset in base units (balance/delegation)
 	Unknown bool     `json:"unknown_validator"`
 	Height  int64    `json:"creation_height_off"`
-	To      string   `json:"to"`               // setWithdraw target
-	Signer  string   `json:"signer,omitempty"` // "" (plain delegator) | vesting (clawback vesting account with locked coins) | operator (validator operator)
-	Create  int      `json:"create,omitempty"` // createValidator parameter variant
+	To      string   `json:"to"` // setWithdraw target
+	// ToSpelling (setWithdraw): how the withdraw address is written in both the message and the precompile call: "" =
+	// the chain's account bech32, valoper / cosmos = well-formed bech32 with another prefix, upper = upper-cased, empty,
+	// garbage
+	ToSpelling string `json:"to_spelling,omitempty"`
+	Signer     string `json:"signer,omitempty"` // "" (plain delegator) | vesting (clawback vesting account with locked coins) | operator (validator operator)
+	Create     int    `json:"create,omitempty"` // createValidator parameter variant
 }
 
 var c16ConsKey = ed25519.GenPrivKeyFromSecret([]byte("c16-new-validator"))
@@ -121,6 +127,9 @@ func genC16(t *rapid.T) C16Case {
 	c.Unknown = rapid.IntRange(0, 9).Draw(t, "unknown") == 0
 	c.Height = rapid.SampledFrom([]int64{0, 0, 0, 1, -1}).Draw(t, "hoff")
 	c.To = rapid.SampledFrom([]string{"w", "third", "signer"}).Draw(t, "to")
+	if c.Method == "setWithdraw" {
+		c.ToSpelling = rapid.SampledFrom([]string{"", "", "valoper", "cosmos", "upper", "empty", "garbage"}).Draw(t, "to-spelling")
+	}
 	c.Signer = rapid.SampledFrom([]string{"", "", "vesting", "vesting", "operator"}).Draw(t, "signer")
 	c.Create = rapid.SampledFrom([]int{0, 0, 0, 1, 2, 3, 4, 5}).Draw(t, "create")
 	if rapid.IntRange(0, 5).Draw(t, "slashed-destination-scenario") == 0 {
@@ -130,6 +139,12 @@ func genC16(t *rapid.T) C16Case {
 		if rapid.Bool().Draw(t, "sd-second") {
 			c.Prelude = append(c.Prelude, C16Pre{K: "undelegate", Val: v + 1, Amt: "1000"})
 		}
+	}
+	if rapid.IntRange(0, 5).Draw(t, "slashed-unbonding-scenario") == 0 {
+		// (query test) an unbonding entry that is slashed while pending: its balance falls below its initial balance
+		v := rapid.IntRange(0, 2).Draw(t, "su-val")
+		c.Prelude = []C16Pre{{K: "undelegate", Val: v, Amt: rapid.SampledFrom([]string{"1000", "250000"}).Draw(t, "su-amt")}, {K: "slash", Val: v, Amt: "1000"}}
+		c.Val, c.Unknown = v, false
 	}
 	if rapid.IntRange(0, 9).Draw(t, "emptied-validator-scenario") == 0 {
 		// the operator of the validator without other delegators withdraws everything; the record stays (no tokens, no
@@ -252,7 +267,7 @@ func runC16(st *ev.Stats, c C16Case) string {
 			case "withdraw":
 				msg = distrtypes.NewMsgWithdrawDelegatorReward(S.Addr, val)
 			case "setWithdraw":
-				msg = distrtypes.NewMsgSetWithdrawAddress(S.Addr, to)
+				msg = &distrtypes.MsgSetWithdrawAddress{DelegatorAddress: S.Addr.String(), WithdrawAddress: c16Spell(to, c.ToSpelling)}
 			case "withdrawCommission":
 				msg = distrtypes.NewMsgWithdrawValidatorCommission(sdk.ValAddress(S.Addr))
 			case "createValidator":
@@ -278,7 +293,7 @@ func runC16(st *ev.Stats, c C16Case) string {
 			case "withdraw":
 				target, data = pabi.DistributionAddr, pabi.Pack("distribution", "withdrawDelegatorRewards", S.Hex, val.String())
 			case "setWithdraw":
-				target, data = pabi.DistributionAddr, pabi.Pack("distribution", "setWithdrawAddress", S.Hex, to.String())
+				target, data = pabi.DistributionAddr, pabi.Pack("distribution", "setWithdrawAddress", S.Hex, c16Spell(to, c.ToSpelling))
 			case "withdrawCommission":
 				target, data = pabi.DistributionAddr, pabi.Pack("distribution", "withdrawValidatorCommission", sdk.ValAddress(S.Addr).String())
 			case "createValidator":
@@ -380,7 +395,13 @@ func runC16Query(st *ev.Stats, c C16Case) string {
 			if sv, ok := app.StakingKeeper.GetValidator(n.Ctx(), v); ok && sv.IsBonded() {
 				cons, err := sv.GetConsAddr()
 				must(err)
-				app.StakingKeeper.Slash(n.Ctx(), cons, n.Header.Height, sv.GetConsensusPower(app.StakingKeeper.PowerReduction(n.Ctx())), sdk.NewDecWithPrec(5, 2))
+				// (an infraction at the current height leaves pending unbondings alone; an older one - amount "1000" selects
+				// height 2, before every unbonding of the prepared chain - slashes them too)
+				inf := n.Header.Height
+				if p.Amt == "1000" {
+					inf = 2
+				}
+				app.StakingKeeper.Slash(n.Ctx(), cons, inf, sv.GetConsensusPower(app.StakingKeeper.PowerReduction(n.Ctx())), sdk.NewDecWithPrec(5, 2))
 				slashed = true
 			}
 			continue
@@ -436,6 +457,24 @@ func runC16Query(st *ev.Stats, c C16Case) string {
 			if !containsAll(got, e.Balance.String(), fmt.Sprint(e.CreationHeight)) {
 				return fail("query-differs:staking.unbondingDelegation", fmt.Sprintf("unbonding entry %+v missing from %s", e, trunc(got)))
 			}
+		}
+		// entry by entry, field by field (initial balance and balance differ once the entry has been slashed)
+		if ents := reflect.ValueOf(out[0]).FieldByName("Entries"); ents.IsValid() {
+			if ents.Len() != len(ubd.Entries) {
+				return fail("query-differs:staking.unbondingDelegation", fmt.Sprintf("%d entries reported, %d stored: %s", ents.Len(), len(ubd.Entries), trunc(got)))
+			}
+			for i, e := range ubd.Entries {
+				ge := ents.Index(i).Interface()
+				if reflectField(ge, "Balance").Cmp(e.Balance.BigInt()) != 0 || reflectField(ge, "InitialBalance").Cmp(e.InitialBalance.BigInt()) != 0 ||
+					reflect.ValueOf(ge).FieldByName("CreationHeight").Int() != e.CreationHeight || reflect.ValueOf(ge).FieldByName("CompletionTime").Int() != e.CompletionTime.UTC().Unix() {
+					return fail("query-differs:staking.unbondingDelegation", fmt.Sprintf("entry %d reported as %+v, stored %+v", i, ge, e))
+				}
+				if !e.Balance.Equal(e.InitialBalance) {
+					st.Class("slashed-unbonding-entry-queried")
+				}
+			}
+		} else if len(ubd.Entries) > 0 {
+			return fail("query-differs:staking.unbondingDelegation", "the answer has no entry list: "+trunc(got))
 		}
 		if len(ubd.Entries) >= 2 {
 			multi++
@@ -621,4 +660,22 @@ func TestC16_Queries(t *testing.T) {
 			rt.Fatalf("%s", msg)
 		}
 	})
+}
+
+func c16Spell(a sdk.AccAddress, how string) string {
+	switch how {
+	case "valoper":
+		return sdk.ValAddress(a).String()
+	case "cosmos":
+		s, err := bech32.ConvertAndEncode("cosmos", a)
+		must(err)
+		return s
+	case "upper":
+		return strings.ToUpper(a.String())
+	case "empty":
+		return ""
+	case "garbage":
+		return a.String()[:len(a.String())-3] + "qqq"
+	}
+	return a.String()
 }
